@@ -26,9 +26,11 @@ TOL = {"singles_gl": ("rel", 1e-10), "singles_simpson": ("rel", 1e-10), "counts"
 DEFAULT_TOL = ("exact",)
 RULE = ("family counts: the probed D9 input, then seeded random phase-matched setups (11 crystals x 5 types x poling on(auto period)/"
         "off(auto angle) x collinear/non-collinear x waists 20-300 um x L 0.5-20 mm; phase-matched = built with the crate's auto "
-        "options and |dk_z| L/2 < pi at the centre, others skipped and counted); per setup a grid of frequency pairs inside the "
-        "support (pump direction x anti-diagonal through +-1.6 first zeros) under Gauss-Legendre-40 and Simpson-200, the rates and "
-        "efficiencies on a square grid, the singles integrand through 7 low-order rules; mode singles: the integrand on random "
+        "options and |dk_z| L/2 < pi at the centre, others skipped and counted); every fifth a near-unity-heralding source (ppKTP 0.3-2 mm, pump 150-400 um, collection 25-50 um); pump-spectrum "
+        "threshold from {1e-2,1e-4,0.1,0.25}; per setup a grid of frequency pairs inside the "
+        "support (pump direction: core and the wings thr <= alpha < sqrt(thr), just inside and beyond the threshold contour; x "
+        "anti-diagonal through +-1.6 first zeros; pairs with vanishing singles are not skipped) under Gauss-Legendre-40 and Simpson-200, the rates and "
+        "efficiencies on a square core grid and on a 7x7 grid reaching beyond the threshold contour, the singles integrand through 7 low-order rules; mode singles: the integrand on random "
         "general setups (non-collinear, apodised, counter-propagating); mode limit: collinear waists 1-5 mm, ratio vs eta F^2/R; "
         "mode eff: 13^3 corner triples + random triples (zero, subnormal, tiny, huge)")
 RESIDUAL = ("the pointwise inequality jsi <= min(singles) between the two independent closed forms (hypothesis of the theorems; "
